@@ -486,6 +486,8 @@ class Runner:
                 gone = op["argv"][-1]
             if gone is not None:
                 links = getattr(self, "links", {})
+                if k in ("mv", "git_mv") and os.path.islink(os.path.join(w.work, gone)):
+                    raise OSError("a relative link would dangle after the move")
                 links.pop(gone, None)
                 if gone in links.values():
                     raise OSError("a link points here")
@@ -513,8 +515,9 @@ class Runner:
                 os.remove(os.path.join(w.work, op["path"]))
             elif k == "symlink":
                 pth = os.path.join(w.work, op["path"])
-                if not os.path.isfile(os.path.join(w.work, op["target"])):
-                    raise OSError("target vanished")      # (minimisation dropped it: no dangling links)
+                tgt = os.path.join(w.work, op["target"])
+                if not os.path.isfile(tgt) or os.path.islink(tgt) or os.path.islink(pth):
+                    raise OSError("target vanished")      # (minimisation dropped it: no dangling links, chains or loops)
                 os.remove(pth)
                 self.links = dict(getattr(self, "links", {}), **{op["path"]: op["target"]})
                 os.symlink(os.path.relpath(os.path.join(w.work, op["target"]), os.path.dirname(pth)), pth)
